@@ -862,6 +862,9 @@ def rule_npt_never_exceeds_its_maximum(eng, rep, rule="C18-10.number-of-points-n
         if isinstance(st, ast.Assign) and len(st.targets) == 1 and isinstance(st.targets[0], ast.Name) and st.targets[0].id == npt_name \
                 and isinstance(st.value, ast.BinOp) and isinstance(st.value.op, (ast.Add, ast.Mult)) and npt_name in mentions(st.value):
             return True
+        if isinstance(st, ast.Assign) and len(st.targets) == 1 and isinstance(st.targets[0], ast.Name) and st.targets[0].id == npt_name \
+                and isinstance(st.value, ast.Call) and isinstance(st.value.func, ast.Name) and st.value.func.id in ("min", "max") and any(is_incr_expr(a) for a in st.value.args):
+            return True         # increase and clamp written as one statement
         return False
 
     def is_clamp(st):
